@@ -195,6 +195,29 @@ def std_unwrap(n):
         return n
 
 
+VALUE_WRAPPERS = ("ImplicitCastExpr", "ParenExpr", "CStyleCastExpr", "CXXStaticCastExpr", "CXXReinterpretCastExpr",
+                  "ExprWithCleanups", "CXXFunctionalCastExpr")
+
+
+def climb(fn, n, wrappers=VALUE_WRAPPERS):
+    """(e, p): the outermost expression e that carries the value of n and its parent p -- through casts, parentheses
+    and the return statement of a folded helper (the helper's call expression then carries the value)."""
+    p = fn.parent(n)
+    hops = 0
+    while p is not None and hops < 60:
+        hops += 1
+        if p.kind in wrappers:
+            n, p = p, fn.parent(p)
+            continue
+        if p.kind == "InlinedReturn":
+            cs = [c for c in fn.all_nodes() if c.d.get("inlined") and n.id in c.d.get("rets", [])]
+            if len(cs) == 1:
+                n, p = cs[0], fn.parent(cs[0])
+                continue
+        break
+    return n, p
+
+
 def path(n, fn=None):
     """Access path of an lvalue/pointer expression as a tuple, or None.
 
